@@ -1450,6 +1450,7 @@ int QSexact_solver (mpq_QSdata * p_mpq,
 {
 	/* local variables */
 	int last_status = 0, last_iter = 0;
+	int keep_cert = 0;	/* the certified multipliers are those of p_mpq's simplex state */
 	QSbasis *basis = 0;
 	unsigned precision = EGLPNUM_PRECISION;
 	int rval = 0,
@@ -1576,9 +1577,10 @@ int QSexact_solver (mpq_QSdata * p_mpq,
 			{
 				mpq_EGlpNumFreeArray (y_mpq);
 				y_mpq = mpq_EGlpNumAllocArray (p_mpq->qslp->nrows);
-				EGcallD(mpq_QSget_infeas_array (p_mpq, y_mpq));
+				EGcallD(mpq_ILLsimplex_infcertificate (p_mpq->lp, y_mpq));
 				if (QSexact_infeasible_test (p_mpq, y_mpq))
 				{
+					keep_cert = 1;
 					infeasible_output (p_mpq, y, y_mpq);
 					goto CLEANUP;
 				}
@@ -1775,9 +1777,10 @@ int QSexact_solver (mpq_QSdata * p_mpq,
 				{
 					mpq_EGlpNumFreeArray (y_mpq);
 					y_mpq = mpq_EGlpNumAllocArray (p_mpq->qslp->nrows);
-					EGcallD(mpq_QSget_infeas_array (p_mpq, y_mpq));
+					EGcallD(mpq_ILLsimplex_infcertificate (p_mpq->lp, y_mpq));
 					if (QSexact_infeasible_test (p_mpq, y_mpq))
 					{
+						keep_cert = 1;
 						infeasible_output (p_mpq, y, y_mpq);
 						goto CLEANUP;
 					}
@@ -1829,6 +1832,14 @@ int QSexact_solver (mpq_QSdata * p_mpq,
 		*status = QS_LP_UNSOLVED;
 	/* ending */
 CLEANUP:
+	/* a rational basis check on the way may have left an infeasibility claim in
+	 * the simplex state of p_mpq that was refuted, or is not the certificate
+	 * that was accepted: mpq_QSget_infeas_array must not hand that out */
+	if (!keep_cert && p_mpq->lp)
+	{
+		p_mpq->lp->basisstat.primal_infeasible = 0;
+		p_mpq->lp->basisstat.dual_unbounded = 0;
+	}
 	dbl_EGlpNumFreeArray (x_dbl);
 	dbl_EGlpNumFreeArray (y_dbl);
 	mpq_EGlpNumFreeArray (x_mpq);
